@@ -10,7 +10,6 @@ only; every path is a concrete run of the real code.
 import sys
 
 from twisted.internet.defer import Deferred, ensureDeferred, fail, inlineCallbacks, succeed
-from twisted.python.failure import Failure
 
 from vlib.api import H, cover
 
@@ -151,14 +150,15 @@ def _loop(n, first_later, mode, coro, base):
     return depths, ok
 
 
-def _same_profile(dn, d2):
-    # depth(n) == depth(2): first sample like the first of the 2-run, every later one like its second
-    if len(d2) < 2 or len(dn) < 2:
+def _same_profile(dn, dref):
+    # depth(n) == depth(reference run): the first sample like the reference's first, every later one
+    # like the reference's second (the reference run is the shortest one that has two samples)
+    if len(dref) < 2 or len(dn) < 1:
         return False
-    if dn[0] != d2[0]:
+    if dn[0] != dref[0]:
         return False
     for x in dn[1:]:
-        if x != d2[1]:
+        if x != dref[1]:
             return False
     return True
 
@@ -200,21 +200,16 @@ def loop_depth(n: int, first_later: bool, mode: int, coro: bool) -> bool:
     first_later = True if first_later else False
     coro = True if coro else False
     base = sys._getframe(0)
-    d2, ok2 = _loop(2, first_later, mode, coro, base)
+    # mode 2: the last await raises out of the loop, so a run of length r has r - 1 samples
+    ref = 3 if mode == 2 else 2
+    dref, okref = _loop(ref, first_later, mode, coro, base)
     dn, okn = _loop(n, first_later, mode, coro, base)
     cover()
-    if not (ok2 and okn):
+    if not (okref and okn):
         return False
-    want = n - 1 if mode == 2 else n
-    if len(dn) != want:
+    if len(dn) != (n - 1 if mode == 2 else n):
         return False
-    if mode == 2:
-        # the last await raises: one sample fewer; compare against the n=3 style profile of a 2-run
-        if n == 2:
-            return True
-        d2b, _ = _loop(3, first_later, mode, coro, base)
-        return _same_profile(dn, d2b)
-    return _same_profile(dn, d2)
+    return _same_profile(dn, dref)
 
 
 HARNESSES = [
